@@ -137,12 +137,15 @@ func runGuard(p *Prog, r *Report, spec *guardSpec) []guardAccess {
 		}
 	}
 
+	inferred := inferHelperLockStates(p, spec)
 	p.AllFuncs(pkg, func(fc *FuncCtx) {
 		var owner types.Object
 		entry := LUnlocked
 		if recv := fc.RecvObj(); recv != nil && namedTypeName(recv.Type()) == spec.OwnerType {
 			owner = recv
 			if st, ok := spec.Helpers[fc.Obj.Name()]; ok {
+				entry = st
+			} else if st, ok := inferred[fc.Obj.Name()]; ok {
 				entry = st
 			}
 		}
@@ -175,6 +178,130 @@ func runGuard(p *Prog, r *Report, spec *guardSpec) []guardAccess {
 		}
 	})
 	return all
+}
+
+
+// inferHelperLockStates computes the lock state inherited by unexported methods of the owner
+// type: a method that is only ever called directly (never used as a value) runs with at least
+// the weakest lock state found at its call sites. Fixpoint from an optimistic start; manual
+// entries of spec.Helpers take precedence.
+func inferHelperLockStates(p *Prog, spec *guardSpec) map[string]LockState {
+	pkg := p.Pkg(spec.PkgRel)
+	// Lock state inherited by unexported methods of the owner type: a method that is only ever
+	// called directly (never used as a value) runs with at least the weakest lock state found
+	// at its call sites. Computed as a fixpoint, starting from "unlocked" for everything that
+	// is exported or referenced other than by a direct call.
+	inferred := map[string]LockState{}
+	if spec.Helpers == nil {
+		spec.Helpers = map[string]LockState{}
+	}
+	manual := map[string]bool{}
+	for k := range spec.Helpers {
+		manual[k] = true
+	}
+	{
+		type site struct {
+			fc *FuncCtx
+			v  int
+			mk string
+		}
+		sites := map[string][]site{}
+		candidates := map[string]*FuncCtx{}
+		otherRefs := map[string]bool{}
+		p.AllFuncs(pkg, func(fc *FuncCtx) {
+			if fc.Obj != nil && !fc.Obj.Exported() {
+				if recv := fc.RecvObj(); recv != nil && namedTypeName(recv.Type()) == spec.OwnerType {
+					candidates[fc.Obj.Name()] = fc
+				}
+			}
+		})
+		p.AllFuncs(pkg, func(fc *FuncCtx) {
+			for _, ctx := range allCtxs(p, fc) {
+				info := ctx.Info()
+				callFun := map[ast.Expr]bool{}
+				for _, cs := range ctx.AllCalls() {
+					callFun[ast.Unparen(cs.Call.Fun)] = true
+					if cs.Fn == nil || candidates[cs.Fn.Name()] == nil || namedTypeName(recvTypeOf(cs.Fn)) != spec.OwnerType {
+						continue
+					}
+					sel, ok := ast.Unparen(cs.Call.Fun).(*ast.SelectorExpr)
+					if !ok {
+						otherRefs[cs.Fn.Name()] = true
+						continue
+					}
+					k := pathKey(info, sel.X)
+					if k == "" {
+						otherRefs[cs.Fn.Name()] = true
+						continue
+					}
+					sites[cs.Fn.Name()] = append(sites[cs.Fn.Name()], site{ctx, cs.V, k + "." + spec.MuField})
+				}
+				// method values (s.helper passed around) defeat the inference
+				ast.Inspect(ctx.Body, func(n ast.Node) bool {
+					if _, isLit := n.(*ast.FuncLit); isLit && n != ast.Node(ctx.Lit) {
+						return false
+					}
+					if sel, ok := n.(*ast.SelectorExpr); ok && !callFun[sel] {
+						if s := info.Selections[sel]; s != nil && s.Kind() == types.MethodVal && candidates[sel.Sel.Name] != nil {
+							otherRefs[sel.Sel.Name] = true
+						}
+					}
+					return true
+				})
+			}
+		})
+		// entry state of a context for a given mutex key
+		var entryOf func(ctx *FuncCtx, mk string) LockState
+		entryOf = func(ctx *FuncCtx, mk string) LockState {
+			top := ctx
+			for top.Parent != nil {
+				return LUnlocked // literals: conservatively unlocked (synchronous callbacks are handled in visit)
+			}
+			if top.Obj == nil {
+				return LUnlocked
+			}
+			if recv := top.RecvObj(); recv != nil && fmt.Sprintf("%p.%s", recv, spec.MuField) == mk {
+				if st, ok := spec.Helpers[top.Obj.Name()]; ok && namedTypeName(recv.Type()) == spec.OwnerType {
+					return st
+				}
+				if st, ok := inferred[top.Obj.Name()]; ok {
+					return st
+				}
+			}
+			return LUnlocked
+		}
+		for name := range candidates {
+			if !manual[name] && !otherRefs[name] && len(sites[name]) > 0 {
+				inferred[name] = LWrite // optimistic start, lowered below
+			}
+		}
+		for round := 0; round < 6; round++ {
+			changed := false
+			for name := range inferred {
+				st := LWrite
+				for _, s := range sites[name] {
+					have := s.fc.LockStates(s.mk, entryOf(s.fc, s.mk))[s.v]
+					switch {
+					case have == LWrite:
+					case have == LRead:
+						if st == LWrite {
+							st = LRead
+						}
+					default:
+						st = LUnlocked
+					}
+				}
+				if st != inferred[name] {
+					inferred[name] = st
+					changed = true
+				}
+			}
+			if !changed {
+				break
+			}
+		}
+	}
+	return inferred
 }
 
 func recvTypeOf(fn *types.Func) types.Type {
